@@ -40,7 +40,9 @@ SPEC = dict(
          "a whole API workload (arith expand calculus parse print matrix poly sets ntheory series solve eval "
          "serialize, dense = rectangular and densesq = square small matrices with leading zero columns / zero rows / "
          "repeated rows / all zero through rref, the pivoted and fraction-free eliminations, LU, inverses, solves and "
-         "aliasing calls) repeated until steady state; output = heap growth of the last repetition; a failed internal "
+         "aliasing calls, sparse = CSRMatrix set() histories with zero writes / overwrites / erasures / empty leading "
+         "rows checked against the CSR index invariant and an integer mirror after every write, then from_coo, add, "
+         "elementwise product, transposes, diagonal, scaling) repeated until steady state; output = heap growth of the last repetition; a failed internal "
          "assertion inside a workload is FAIL:assert. distinct = distinct op "
          "lines; non-trivial = every line (each performs >= 3 library calls); tags: trace-short/medium/long, "
          "trace-<boundary>, workload-<kind>. In the thorough tier the same lines are executed again by the "
